@@ -129,7 +129,7 @@ def handle_failures(pid, lane, failures, agg, env=None):
                 san = [("miri", miri_summary(err))]
             for kind, frame in san[:10]:
                 agg["violations"].append({"monitor": mon, "sig": "%s:%s:%s" % (lane, kind, frame), "rule": None, "data": None,
-                                          "expected": "no sanitizer / interpreter report", "got": {"report": err[-2500:], "exit": f["rc"]},
+                                          "expected": "no sanitizer / interpreter report", "got": {"report": err[:3000], "exit": f["rc"]},
                                           "note": "%s reported %s" % (lane, kind), "lane": lane, "shard": f["shard"], "count": 1, "direct": False})
             m = agg["monitors"].setdefault(mon, {"observed": 0, "judged": 0, "unjudged": 0, "violations": 0})
             m["violations"] += len(san)
